@@ -277,6 +277,11 @@ def case_reject(mon: Monitor, rng: random.Random) -> None:
     tx, ty = rng.randint(-10, 10), rng.randint(-10, 10)
     if kind == "subpixel":
         d = rng.choice([1e-3, -1e-3, 0.01, 0.25, 0.5, -0.4, rng.uniform(0.001, 0.999)])
+        if rng.random() < 0.4:
+            # distant tiles of a large mosaic: thousands of whole pixels apart and off the grid by a visible fraction of a pixel (the tolerance is absolute, not relative to the distance)
+            kind = "subpixel-far"
+            tx, ty = rng.choice([-1, 1]) * rng.choice([3200, 6400, 32000, 51200, 200000]), rng.choice([-1, 1]) * rng.choice([0, 3200, 51200, 200000])
+            d = rng.choice([0.05, 0.3, -0.45, 0.2, -0.1, 0.5])
         other = base.translate_pix(tx + (d if rng.random() < 0.5 else 0), ty + d)
     elif kind == "scale":
         f = rng.choice([1 + 1e-3, 1 - 1e-3, 1.01, 2, 0.5, 3])
@@ -365,7 +370,7 @@ def run(mon: Monitor, tier: str, seed: int, shard: int, nshards: int) -> None:
     for pt, n in [("GeoBox.__or__", 300), ("GeoBox.__and__", 300), ("GeoBox.overlap_roi", 300), ("geobox_union_conservative", 300),
                   ("geobox_intersection_conservative", 300), ("union.assoc", 100), ("intersection.assoc", 50), ("GeoBox.enclosing", 300),
                   ("GeoBox.snap_to", 300), ("reject-incompatible", 500), ("bbox.absorption-1", 500),
-                  ("GeoBox.overlap_roi|north-up|disjoint-x", 2), ("GeoBox.overlap_roi|rotated|overlap", 2), ("GeoBox.enclosing|other-crs|poly", 20)]:
+                  ("GeoBox.overlap_roi|north-up|disjoint-x", 2), ("GeoBox.overlap_roi|rotated|overlap", 2), ("GeoBox.enclosing|other-crs|poly", 20), ("reject-incompatible|subpixel-far|or", 10), ("reject-incompatible|subpixel-far|overlap_roi", 10)]:
         mon.floor(pt, n)
 
 
